@@ -217,7 +217,7 @@ impl Sub for Trace {
         "DNA / protein dataset of 2..12 sequences (lengths width+1..~120, occasional wildcards) x width 1..20 x mode Oops or Zoops (seeds 2..n, inertia, patience) x StdRng seed x 1..300 steps x forced dispatcher arm; after construction and after EVERY step count_matrix, background, starts and Iteration.counts are recomputed from the reported alignment; the whole run is repeated and the two traces (z, counts, pssm bits, active set, starts) must be identical; non-trivial = >= 50 steps with a changed start (and an inclusion in Zoops)"
     }
     fn cases(&self, tier: Tier) -> u64 {
-        tier.pick(4_000, 100_000)
+        tier.pick(8_000, 200_000)
     }
     fn strategy(&self, _tier: Tier) -> BoxedStrategy<Case> {
         (abc_strategy(), 1usize..=20, 2usize..=12)
